@@ -5,7 +5,7 @@ Property theorems only (helper lemmas live in Lemmas/Accept.lean).
 The generic theorems hold for every `Neg σ κ` (any specificity function, any match relation) whose
 two `≤` relations are total preorders; they are then instantiated for the four werkzeug classes.
 -/
-import WzVerif.Lemmas.Accept
+import WzVerif.Lemmas.AcceptText
 import WzVerif.Gen.AcceptTbl
 namespace Wz.Props.C17
 open Wz Wz.Accept
@@ -306,39 +306,32 @@ theorem negotiation_none_meets_property (N : Neg σ κ) (hs : TotalPre N.sle) (h
 
 /-! ## q values -/
 
+/-- Exactly which q texts are kept: `parseQ s = some q` iff `s` has the shape `-?digits(.digits)?`
+(`_q_value_re`), `q` is its decimal value, `q ≤ 1`, and a minus sign only stands in front of zero.
+Every other text — empty, `1.`, `.5`, `+1`, `1e-1`, `abc`, anything negative or above one — makes
+`parse_accept_header` drop the item. -/
+theorem q_text_kept_iff (s : Str) (q : Q) : parseQ s = some q ↔ QText s q := parseQ_iff s q
+
 /-- A q that passes `_q_value_re` and the range check lies in `[0, 1]`, and a q written with a
 minus sign is only accepted when it is `-0`. -/
 theorem parseQ_range (s : Str) (q : Q) (h : parseQ s = some q) :
     q.num ≤ 10 ^ q.scale ∧ (s.head? = some '-' → q.num = 0) := by
-  unfold parseQ at h
-  split at h
-  rename_i neg body hnb
-  simp only at h
-  split at h
-  · cases h
-  · split at h
-    · cases h
-    · rename_i fr _
-      split at h
-      · cases h
-      · split at h
-        · rename_i hneg hle
-          simp only [Option.some.injEq] at h
-          subst h
-          refine ⟨by simpa [Q.le, Q.one] using hle, ?_⟩
-          intro hd
-          have : neg = true := by
-            split at hnb
-            · simp only [Prod.mk.injEq] at hnb; exact hnb.1.symm
-            · rename_i hne
-              cases s with
-              | nil => simp at hd
-              | cons c t =>
-                simp only [List.head?_cons, Option.some.injEq] at hd
-                subst hd
-                exact absurd rfl (hne t)
-          simpa [this] using hneg
-        · cases h
+  obtain ⟨neg, ip, fr, hne, hip, _, hs, _, hle, hneg⟩ := parseQ_sound s q h
+  refine ⟨hle, ?_⟩
+  intro hd
+  apply hneg
+  cases neg with
+  | true => rfl
+  | false =>
+    subst hs
+    cases ip with
+    | nil => exact absurd rfl hne
+    | cons a t =>
+      simp only [Bool.false_eq_true, ↓reduceIte, List.nil_append, List.cons_append, List.head?_cons,
+        Option.some.injEq] at hd
+      subst hd
+      have := hip '-' (by simp)
+      revert this; decide
 
 example : parseQ "0.001".toList = some ⟨1, 3⟩ ∧ parseQ "1.000".toList = some ⟨1000, 3⟩ ∧
     parseQ "-0.5".toList = none ∧ parseQ "1.001".toList = none ∧ parseQ "1.".toList = none ∧
@@ -430,6 +423,94 @@ example : IsValueText "text/html".toList ∧ IsToken "1.5".toList ∧ parseQ "1.
 theorem invalid_q_space_kept :
     (parseAcceptRaw "text/html;q= 0.5".toList).toOption = some [("text/html".toList, Q.one)] := by
   decide
+
+/-! ## the property on header text -/
+
+/-- `parse_accept_header` on the property's grammar, as text: for a header
+`e₁,e₂,…,eₙ` whose elements are `value(;key=token)*(;q=token)?` (values of token characters and
+`/`, distinct lower-case keys, token parameter values — media ranges with and without parameters,
+language tags, charsets, codings), the list handed to the Accept class consists, in header order,
+of `value; key=token; …` with the q of the element (1 when absent) for exactly the elements whose
+q text is a valid q (`q_text_kept_iff`); elements with any other token as q text are dropped.
+The one gap of the code is outside this grammar: a q parameter that is not a token (`;q=`,
+`;q= 0.5`) is lost in `parse_options_header` and the element is kept with q=1 — known finding
+F17b, witnesses `invalid_q_ignored_full_false` and `invalid_q_space_kept`. -/
+theorem parse_accept_text (es : List Elem) (hne : es ≠ []) (h : ∀ e ∈ es, e.WF) :
+    parseAcceptRaw (headerText es) = .ok (es.filterMap Elem.item) :=
+  parseAcceptRaw_header es hne h
+
+/-- an element is dropped exactly when it has a q text that is not a valid q -/
+theorem element_dropped_iff (e : Elem) :
+    e.item = none ↔ ∃ qs, e.q = some qs ∧ ∀ q, ¬ QText qs q := by
+  unfold Elem.item
+  cases hq : e.q with
+  | none => simp
+  | some qs =>
+    simp only [Option.map_eq_none_iff, Option.some.injEq, exists_eq_left']
+    constructor
+    · intro hn q hqt
+      rw [(parseQ_iff qs q).mpr hqt] at hn; cases hn
+    · intro hall
+      cases hp : parseQ qs with
+      | none => rfl
+      | some q => exact absurd ((parseQ_iff qs q).mp hp) (hall q)
+
+def exampleHeader : List Elem :=
+  [⟨"text/html".toList, [("level".toList, "1".toList)], some "0.5".toList⟩,
+   ⟨"text/*".toList, [], some "1.5".toList⟩, ⟨"*/*".toList, [], none⟩]
+
+example : headerText exampleHeader = "text/html;level=1;q=0.5,text/*;q=1.5,*/*".toList ∧
+    exampleHeader.filterMap Elem.item =
+      [("text/html; level=1".toList, ⟨5, 1⟩), ("*/*".toList, Q.one)] := by decide
+
+/-- The property end to end on header text, for any of the four classes: negotiate on the parsed
+text of a well-formed header; if `best_match` returns `r`, then `r` is an offer, its quality — the
+q of the most specific element of the header that matches it, computed declaratively from the
+header's elements — is positive, and no offer has a higher quality. -/
+theorem negotiation_meets_property_text (N : Neg σ Q) (hs : TotalPre N.sle)
+    (es : List Elem) (hne : es ≠ []) (h : ∀ e ∈ es, e.WF) (self : List (Str × Q))
+    (hp : parseAccept N (headerText es) = .ok self) (offers : List Str) (r : Str)
+    (hb : bestMatch N self offers = some r) (hq : N.qle = Q.le) :
+    r ∈ offers ∧ ∃ x, IsOfferQuality N (es.filterMap Elem.item) r x ∧ N.qle x.2 N.zero = false ∧
+      ∀ o ∈ offers, ∀ y, IsOfferQuality N (es.filterMap Elem.item) o y → N.qle y.2 x.2 = true := by
+  unfold parseAccept at hp
+  rw [parse_accept_text es hne h] at hp
+  simp only [Except.map, Except.ok.injEq] at hp
+  subst hp
+  have hq' : TotalPre N.qle := by rw [hq]; exact qle_totalPre
+  exact negotiation_meets_property N hs hq' _ offers r hb
+
+/-- ... and `None` is returned only when no offer has positive quality. -/
+theorem negotiation_none_meets_property_text (N : Neg σ Q) (hs : TotalPre N.sle)
+    (es : List Elem) (hne : es ≠ []) (h : ∀ e ∈ es, e.WF) (self : List (Str × Q))
+    (hp : parseAccept N (headerText es) = .ok self) (offers : List Str)
+    (hb : bestMatch N self offers = none) (hq : N.qle = Q.le) :
+    ∀ o ∈ offers, ∀ y, IsOfferQuality N (es.filterMap Elem.item) o y → N.qle y.2 N.zero = true := by
+  unfold parseAccept at hp
+  rw [parse_accept_text es hne h] at hp
+  simp only [Except.map, Except.ok.injEq] at hp
+  subst hp
+  have hq' : TotalPre N.qle := by rw [hq]; exact qle_totalPre
+  exact negotiation_none_meets_property N hs hq' _ offers hb
+
+/-- Parsing header text keeps the client's order among elements of equal specificity and quality. -/
+theorem parse_order_stable_text (N : Neg σ Q) (hs : TotalPre N.sle)
+    (es : List Elem) (hne : es ≠ []) (h : ∀ e ∈ es, e.WF) (self : List (Str × Q))
+    (hp : parseAccept N (headerText es) = .ok self) (s : σ) (q : Q) (hq : N.qle = Q.le) :
+    let same := fun (x : Str × Q) =>
+      N.sle (N.spec x.1) s && N.sle s (N.spec x.1) && N.qle x.2 q && N.qle q x.2
+    self.filter same = (es.filterMap Elem.item).filter same := by
+  unfold parseAccept at hp
+  rw [parse_accept_text es hne h] at hp
+  simp only [Except.map, Except.ok.injEq] at hp
+  subst hp
+  have hq' : TotalPre N.qle := by rw [hq]; exact qle_totalPre
+  exact parse_order_stable N hs hq' _ s q
+
+example : (parseAccept mimeNeg (headerText exampleHeader)).toOption =
+      some [("text/html; level=1".toList, ⟨5, 1⟩), ("*/*".toList, Q.one)] ∧
+    bestMatch mimeNeg [("text/html; level=1".toList, ⟨5, 1⟩), ("*/*".toList, Q.one)]
+      ["text/plain".toList, "text/html;level=1".toList] = some "text/plain".toList := by decide
 
 /-! ## the four classes -/
 
